@@ -1,5 +1,7 @@
 SPECIFICATION Spec
 CONSTANT Deep = FALSE
+CONSTANT MulChecksRange = TRUE
+INVARIANT ImplRefines
 INVARIANT Closed
 INVARIANT Exact
 INVARIANT Accessors
